@@ -12,7 +12,7 @@ def main():
     res = dict(name=spec['name'], status='pass', violations=[], stats={}, funcs=[])
     try:
         E = llsym.Engine(open(spec['ll']).read(), max_steps=spec['max_steps'], max_paths=spec['max_paths'], params=spec['params'],
-                         check_undef=spec.get('check_undef', True))
+                         check_undef=spec.get('check_undef', True), cpu=spec.get('extra', {}).get('cpu', 'haswell'))
         E.stop_on_first = spec.get('stop_on_first', False)
         if spec.get('stubs'):
             mod = importlib.import_module(spec['stubs']); E.stubs = mod.STUBS
